@@ -365,7 +365,7 @@ impl ByteSeries {
         assert!(
             self.downsampled
                 .windows(2)
-                .all(|w| w[0].data().data_len >= w[1].data().data_len),
+                .all(|w| w[0].data().len() >= w[1].data().len()),
             "downsampled must be sorted in descending resolution/numb lines"
         );
 
